@@ -532,7 +532,27 @@ func (e *OpEngine) DataInstances(want func(string) bool, b DataBounds) []*DataCa
 		fn := e.method("Equals")
 		for _, d := range smallShapes {
 			d := d
-			add(&DataCall{Fn: fn, Label: fmt.Sprintf("Equals A=%s B=%s", dimsLabel(d), dimsLabel(d)), Cases: pairCases(d, false), Build: func(e *OpEngine) []interp.Value {
+			cases := pairCases(d, false)
+			// mixed cases: all positions tie except the first / the last one
+			if n := len(cases[1].Facts); n > 1 {
+				for _, which := range []string{"first", "last"} {
+					f := sym.Facts{}
+					for k, v := range cases[1].Facts {
+						f[k] = v
+					}
+					idx := make([]sym.Poly, len(d))
+					for i := range idx {
+						if which == "last" {
+							idx[i] = sym.PInt(int64(d[i] - 1))
+						} else {
+							idx[i] = sym.PInt(0)
+						}
+					}
+					f[sym.Sub(sym.LeafE("A", idx), sym.LeafE("B", idx)).Key()] = sym.SignBigPos
+					cases = append(cases, DataCase{Name: "only the " + which + " position differs", Facts: f})
+				}
+			}
+			add(&DataCall{Fn: fn, Label: fmt.Sprintf("Equals A=%s B=%s", dimsLabel(d), dimsLabel(d)), Cases: cases, Build: func(e *OpEngine) []interp.Value {
 				return []interp.Value{e.mkTensorD("A", d, false, rng), e.W.Boxed(e.mkTensorD("B", d, false, rng))}
 			}, OnResult: func(e *OpEngine, caseName string, res []interp.Value) {
 				key := "cputensor.(*CPUTensor).Equals"
